@@ -121,17 +121,33 @@ fn main() {
                 _ => {
                     // one owner, every kind: a scratchpad and a transaction of one owner share a name; a register does not
                     let o = hex(&rand_pk(&mut rng));
+                    let label = hex(&rng.bytes(32));
                     v.push(format!("pad {o}"));
                     v.push(format!("tx {o}"));
-                    v.push(format!("reg {} {o}", hex(&rng.bytes(32))));
+                    v.push(format!("reg {label} {o}"));
+                    // no kind tag in an address (K-f5 of C07): the CHUNK whose bytes are the owner key has the
+                    // scratchpad / transaction key, the chunk whose bytes are label ‖ owner key has the register key
+                    v.push(format!("chunk {o}"));
+                    v.push(format!("chunk {label}{o}"));
                 }
             }
         }
         v
     };
+    // record key -> kinds (chunk / owner / reg) that derived it
+    let mut by_key: std::collections::HashMap<String, std::collections::BTreeSet<&'static str>> = Default::default();
     for l in &lines {
         let r = exec(l);
         oracle(l, &r, &mut out);
+        if let (Some(op), Some(key)) = (l.split_whitespace().next(), r.split_whitespace().nth(1)) {
+            let fam = match op { "chunk" => "chunk", "pad" | "tx" => "owner", "reg" => "reg", _ => "" };
+            if !fam.is_empty() {
+                let e = by_key.entry(key.to_string()).or_default();
+                if e.insert(fam) && e.len() > 1 {
+                    out.count(&format!("same-key-across-kinds:{}", e.iter().copied().collect::<Vec<_>>().join("+")));
+                }
+            }
+        }
         let op = l.split_whitespace().next().unwrap_or("");
         out.count(&format!("{op}:{}", if r == "bad-op" || r == "panic" { r.as_str() } else { "ok" }));
         out.nontrivial_case(l);
